@@ -318,6 +318,23 @@ type v12Node struct {
 	// moment it processed an announcement (the handler's Save is the only place an acceptor persists it)
 	persisted uint64
 	annDone   chan struct{} // one token per finished "update status" goroutine of the announcement handler
+	reannDone chan struct{} // one token per finished background ArbiterManager.DoAnnouncement()
+}
+
+// awaitReannounce: a proposal answered ERR_STATUS / ERR_ROLE (a leader is known) has started exactly one background
+// ArbiterManager.DoAnnouncement(); it reads voter.proposalHost without the voter lock, so it must be over before the next
+// message is delivered (the schedule stays owned by the case, and the unsynchronised read cannot tear).
+func (n *v12Node) awaitReannounce(why string) {
+	if !strings.Contains(why, "ERR_STATUS") && !strings.Contains(why, "ERR_ROLE") {
+		return
+	}
+	select {
+	case <-n.reannDone:
+	case <-time.After(90 * time.Second):
+		fmt.Printf("VERIF-INCONCLUSIVE C12: background re-announcement of member %d did not finish\n", n.idx)
+		vFlush()
+		os.Exit(3)
+	}
 }
 
 func (n *v12Node) state() v12AccState {
@@ -391,10 +408,14 @@ func (cl *v12Cluster) boot(i int) *v12Err {
 	Config = v12ServerConfig(n.dir)
 	n.lg = &v12Logger{}
 	done := make(chan struct{}, 64)
-	n.annDone = done
+	redone := make(chan struct{}, 64)
+	n.annDone, n.reannDone = done, redone
 	n.lg.hook = func(format string, args []interface{}) {
-		if strings.HasPrefix(format, "Arbiter handle announcementcommand update status succed") {
+		switch {
+		case strings.HasPrefix(format, "Arbiter handle announcementcommand update status succed"):
 			done <- struct{}{}
+		case strings.HasPrefix(format, "Arbiter replication do announcement finish"), strings.HasPrefix(format, "Arbiter announcement error"):
+			redone <- struct{}{}
 		}
 	}
 	n.slock = v12BareSLock(n.lg)
@@ -776,6 +797,7 @@ func (cl *v12Cluster) callProposal(from, to int, pid uint64, host string, pos v1
 	if from == to {
 		_, err := n.mgr.ownMember.DoSelfProposal(pid, host, pos.id())
 		if err != nil {
+			n.awaitReannounce(err.Error())
 			return false, err.Error(), nil
 		}
 		return true, "", nil
@@ -788,6 +810,7 @@ func (cl *v12Cluster) callProposal(from, to int, pid uint64, host string, pos v1
 	if err != nil || res == nil {
 		return false, "", v12Fail(v12KeyAcceptor, "proposal handler of member %d returned (%v, %v)", to, res, err)
 	}
+	n.awaitReannounce(res.ErrType)
 	return res.Result == 0 && res.ErrType == "", res.ErrType, nil
 }
 
